@@ -2,7 +2,7 @@ import GramModel.Lemmas.ArmsTie
 import GramModel.Lemmas.Print
 import GramModel.Lemmas.PrintDerives
 import GramModel.Lemmas.PrintLex
-import GramModel.Lemmas.ParsePrinted20
+import GramModel.Lemmas.ParsePrinted22
 
 /-!
 # C16 — printed terms read back as the same term (the printer side)
@@ -699,18 +699,13 @@ example : ∃ (toks : Array PModel.PTok) (t : Tm), PrintDerives.noImplicitArrow 
    .app (.app (.var 5 0) (.app (.var 6 0) (.var 7 0))) (.var 8 0),
    by decide, by decide, by decide, by simp [Function.comp_def]⟩
 
-/-- The whole round trip (PENDING — the parse phase is `C16_parse_printed`, the applications pass on chains is
-`C16_printed_application_left_nested`; the applications pass on the whole tree is `C16_reassoc_applications_printed`, the other two passes on fully
-parenthesised trees `C16_chain_passes_identity`; all three passes `C16_reassoc_printed`; name resolution is proved for terms without definition group
-(`C16_resolve_printed_nolet`, whole round trip `C16_read_back_nolet`); not proved: name resolution of definition groups
-(`C16_resolve_printed_stmt`).  Checked by
-evaluation of the model on sample terms with binders, arrows, definition groups and operator chains.)  `PModel.readBack` =
-parse phase, the three re-association passes, `resolve_variables` in the scope `names` (outermost first), ranges forgotten;
-`PModel.scopedOK` = hole-free, every variable carries the de Bruijn index of its name in the scope, binder names are not the
-placeholder and not already in scope (gram's no-shadowing rule; the names of a definition group pairwise distinct), no empty
-definition group and no definition group directly as body of a definition group (both are printed like their flattening);
-`PModel.canon` replaces the name of every unused Π binder (it is not printed) by the placeholder.  The name table is
-invertible on the names used: `I (nm x) = x`. -/
+/-- **The whole round trip** (theorem `C16_read_back`, at the end of this file).  `PModel.readBack` = parse phase, the
+three re-association passes, `resolve_variables` in the scope `names` (outermost first), ranges forgotten; `PModel.scopedOK` =
+hole-free, every variable carries the de Bruijn index of its name in the scope, binder names are not the placeholder and not
+already in scope (gram's no-shadowing rule; the names of a definition group pairwise distinct), no empty definition group and
+no definition group directly as body of a definition group (both are printed like their flattening); `PModel.canon` replaces
+the name of every unused Π binder (it is not printed) by the placeholder.  The name table is invertible on the names used:
+`I (nm x) = x`. -/
 def C16_read_back_stmt : Prop :=
   ∀ (toks : Array PModel.PTok) (I : List Char → Name) (nm : Name → List Char) (names : List Name) (t : Tm),
     (∀ x, I (nm x) = x) → names.Nodup → (∀ x ∈ names, x ≠ PModel.placeholder) →
@@ -770,9 +765,10 @@ def C16_reassoc_printed_stmt : Prop :=
 theorem C16_reassoc_printed : C16_reassoc_printed_stmt :=
   fun toks I nm t h1 h2 h3 => PModel.reassocAll_printed toks I nm t h1 h2 h3
 
-/-- Stage B, full statement (PENDING: proved for terms without definition group, `C16_resolve_printed_nolet`; the `let`
-arm of `toDB` — `letNames`, `Stack.bindAll`, `toDBChain` on `PModel.lsrcDefs` — is not done): name resolution of any tree that
-is the tree of `t` up to ranges, flags and errors, in the scope `names`, returns `canon t` without error. -/
+/-- **Stage B** (theorem `C16_resolve_printed`, at the end of this file): name resolution of any tree that is the tree of
+`t` up to ranges, flags and errors, in the scope `names`, returns `canon t` without error — definition groups included: the
+names of the group are `letNames` of the nested `let`s, `Stack.bindAll` pushes them (last definition = index 0),
+`toDBChain` walks the definitions. -/
 def C16_resolve_printed_stmt : Prop :=
   ∀ (I : List Char → Name) (nm : Name → List Char) (names : List Name) (t : Tm) (s : PModel.Src),
     (∀ x, I (nm x) = x) → names.Nodup → (∀ x ∈ names, x ≠ PModel.placeholder) →
@@ -825,4 +821,32 @@ example : ∃ (toks : Array PModel.PTok) (I : List Char → Name) (nm : Name →
         (.app (.app (.var 3 1) (.app (.var 1 0) (.app (.var 1 0) (.lit 1))))
           (.bin .sum (.app (.var 1 0) (.lit 2)) (.lit 1))),
    fun x => by simp, by decide, by decide, by decide, by decide, by decide, by decide,
+   by simp [Function.comp_def]⟩
+
+
+theorem C16_resolve_printed : C16_resolve_printed_stmt :=
+  fun I nm names t s h1 h2 h3 h4 h5 => PModel.resolve_printed I nm names t s h1 h2 h3 h4 h5
+
+theorem C16_read_back : C16_read_back_stmt :=
+  fun toks I nm names t h1 h2 h3 h4 h5 h6 h7 => PModel.read_back toks I nm names t h1 h2 h3 h4 h5 h6 h7
+
+/-- non-vacuity of `C16_read_back`: `b : int = 5; c : int = b; if c < b then (e : int) => d e c else d b` in the scope
+`[d]` (names = lengths of runs of `a`) -/
+example : ∃ (toks : Array PModel.PTok) (I : List Char → Name) (nm : Name → List Char) (names : List Name) (t : Tm),
+    (∀ x, I (nm x) = x) ∧ names.Nodup ∧ (∀ x ∈ names, x ≠ PModel.placeholder) ∧
+    PModel.scopedOK names.reverse t = true ∧ PrintDerives.noImplicitArrow t = true ∧
+    PrintDerives.noNegLit t = true ∧
+    toks.toList.map (·.kind) = (PrintDerives.printKinds nm t).map (PModel.kindP I) :=
+  ⟨((PrintDerives.printKinds (fun n => List.replicate n 'a')
+      (.letg (.cons 1 .int (.lit 5) (.cons 2 .int (.var 1 1) .nil))
+        (.ite (.bin .lt (.var 2 0) (.var 1 1))
+          (.lam 4 false .int (.app (.app (.var 3 3) (.var 4 0)) (.var 2 1)))
+          (.app (.var 3 2) (.var 1 1))))).map
+      (fun k => (⟨PModel.kindP List.length k, ⟨0, 0⟩⟩ : PModel.PTok))).toArray,
+   List.length, fun n => List.replicate n 'a', [3],
+   .letg (.cons 1 .int (.lit 5) (.cons 2 .int (.var 1 1) .nil))
+        (.ite (.bin .lt (.var 2 0) (.var 1 1))
+          (.lam 4 false .int (.app (.app (.var 3 3) (.var 4 0)) (.var 2 1)))
+          (.app (.var 3 2) (.var 1 1))),
+   fun x => by simp, by decide, by decide, by decide, by decide, by decide,
    by simp [Function.comp_def]⟩
